@@ -55,6 +55,29 @@ fn shrink(c: &VCase) -> VCase {
     )
 }
 
+pub fn long_lengths() -> Vec<usize> {
+    let mut v = vec![100usize, 200, 300, 1000, 3000];
+    for k in [7u32, 8, 9, 10, 11, 12, 16] {
+        for d in 0..5usize {
+            v.push((1usize << k) + d - 2);
+        }
+    }
+    v
+}
+
+pub fn long_positions(len: usize) -> Vec<usize> {
+    let mut p = vec![0usize, 1, 15, 16, 17, len / 2, len / 2 + 1];
+    for d in [65usize, 64, 33, 32, 17, 16, 15, 4, 3, 2, 1] {
+        if len >= d {
+            p.push(len - d);
+        }
+    }
+    p.retain(|x| *x < len);
+    p.sort();
+    p.dedup();
+    p
+}
+
 pub fn run_val_family(ctx: &Ctx, fam: &ValFamily) -> Stats {
     let mut total = Stats::new();
     const LANES: usize = 8;
@@ -157,9 +180,66 @@ pub fn run_val_family(ctx: &Ctx, fam: &ValFamily) -> Stats {
     if fw::should_stop() {
         return total;
     }
+    // ---- long buffers: lengths around powers of two up to 2^16, planted unit near both ends and
+    // in the middle (loop counters, unrolled strides, tail handling far from the start)
+    let long_lens = long_lengths();
+    let st = par_run(ctx, nf * LANES, |part, st| {
+        let f = fam.fns[part / LANES];
+        let lane = part % LANES;
+        let mut rn = VRunner::new();
+        let mut units8: Vec<Vec<u8>> = memgen::PLANT8.iter().map(|u| u.to_vec()).collect();
+        units8.extend(fam.extra_units8.iter().cloned());
+        units8.push(vec![0x1B]);
+        let mut units16: Vec<Vec<u16>> = memgen::PLANT16.iter().map(|u| u.to_vec()).collect();
+        units16.extend(fam.extra_units16.iter().cloned());
+        let ncls = if f.is_u16() { units16.len() } else { units8.len() };
+        for (li, &len) in long_lens.iter().enumerate() {
+            if li % LANES != lane {
+                continue;
+            }
+            if fw::should_stop() {
+                return;
+            }
+            let fk = if li % 5 == 4 { 1 + li % 3 } else { 0 };
+            for cls in 0..=ncls {
+                let positions: Vec<usize> = if cls == ncls { vec![0] } else { long_positions(len) };
+                for pos in positions {
+                    let (mut s8, mut s16) = (vec![], vec![]);
+                    if f.is_u16() {
+                        s16 = if cls == ncls { memgen::filler16(fk, len) } else { memgen::plant16(fk, len, pos, &units16[cls]) };
+                    } else {
+                        s8 = if cls == ncls { memgen::filler8(fk, len) } else { memgen::plant8(fk, len, pos, &units8[cls]) };
+                    }
+                    let mut c = VCase { f, src8: s8, src16: s16, align: fam.aligns[(pos + li) % fam.aligns.len()], force_scalar: fam.force_scalar };
+                    c.sanitise();
+                    st.evals += 1;
+                    st.nontrivial_distinct();
+                    st.class("long-buffer-(length-around-a-power-of-two-up-to-65536)");
+                    if let Some(m) = rn.judge(&c) {
+                        let min = shrink(&c);
+                        let m2 = rn.judge(&min).unwrap_or(m);
+                        st.violations.push(violation(&min, m2));
+                        return;
+                    }
+                }
+            }
+        }
+    });
+    total.merge(st);
+    total.exhaustive.push("per function: lengths 2^k-2..=2^k+2 (k = 7..=12, 16) and 100/200/300/1000/3000 x every planted unit class at positions {0, 1, 15..17, middle, 65/64/33/17/16/15/4/3/2/1 from the end}".into());
+    if fw::should_stop() {
+        return total;
+    }
     let st = par_run(ctx, nf * 2, |part, st| {
         let f = fam.fns[part / 2];
         let strat = (proptest::collection::vec((any::<u8>(), any::<u32>(), any::<u8>()), 0..=fam.max_tokens), any::<u8>()).prop_map(move |(toks, al)| {
+            // one case in 16 is long: the token list repeated 4..=35 times with varied parameters
+            let toks: Vec<(u8, u32, u8)> = if (al >> 4) == 3 && !toks.is_empty() {
+                let reps = 4 + (toks[0].1 >> 27) as usize;
+                (0..reps).flat_map(|i| toks.iter().map(move |&(k, a, c)| (k, a.wrapping_add((i as u32).wrapping_mul(0x9E37_79B9)), c))).collect()
+            } else {
+                toks
+            };
             let (mut s8, mut s16) = (vec![], vec![]);
             for (k, a, c) in &toks {
                 if f.is_u16() {
